@@ -228,7 +228,7 @@ func run(p *kernel.Plan) (res *kernel.Result) {
 			return
 		}
 	}
-	s := rtmpx.NewSession(p, kernel.ModePlain, 400000)
+	s := rtmpx.NewSession(p, kernel.ModePlain, 4000000)
 	s.Run()
 	s.ApplyStats(res)
 	if t, ok := s.S.FirstPanic(); ok {
